@@ -446,12 +446,16 @@ type phaseInfo struct {
 }
 
 type bubbleCtl struct {
+	progress atomic.Int64 // bumped by the stepper whenever it gets anywhere
 	phase    atomic.Pointer[phaseInfo]
 	bubbleID atomic.Int64
 	descr    atomic.Pointer[string] // scenario description for the watchdog record
 }
 
-func (b *bubbleCtl) SetPhase(name, prop string) { b.phase.Store(&phaseInfo{name, prop}) }
+func (b *bubbleCtl) SetPhase(name, prop string) {
+	b.phase.Store(&phaseInfo{name, prop})
+	b.progress.Add(1)
+}
 
 type bubbleOutcome struct {
 	Deadlock string // synctest deadlock reason, if the bubble ended in one
@@ -618,10 +622,11 @@ func censusProcess() []gInfo {
 func (r *Run) watchdogFired(ctl *bubbleCtl, wd time.Duration) {
 	id := ctl.bubbleID.Load()
 	ph := ctl.phase.Load()
-	type sample struct{ running map[int64]string }
 	var dumps []string
-	counts := map[string]int{} // goroutine id + top function -> samples in which it was running/runnable
-	const nSamples = 5
+	counts := map[int64]int{} // library goroutine -> samples in which it was running/runnable
+	where := map[int64]string{}
+	const nSamples = 10
+	progress0 := ctl.progress.Load()
 	for i := 0; i < nSamples; i++ {
 		st := allStacks()
 		var sb strings.Builder
@@ -630,11 +635,11 @@ func (r *Run) watchdogFired(ctl *bubbleCtl, wd time.Duration) {
 				continue
 			}
 			sb.WriteString(g.Text + "\n\n")
-			if !strings.Contains(g.Text, modulePath) {
+			if !g.moduleCreated() {
 				continue
 			}
 			if strings.HasPrefix(g.State, "running") || strings.HasPrefix(g.State, "runnable") {
-				// innermost module frame
+				counts[g.ID]++
 				fn := ""
 				for _, l := range strings.Split(g.Text, "\n") {
 					if strings.HasPrefix(l, modulePath) {
@@ -645,33 +650,38 @@ func (r *Run) watchdogFired(ctl *bubbleCtl, wd time.Duration) {
 				if j := strings.IndexByte(fn, '('); j > 0 {
 					fn = fn[:j]
 				}
-				counts[fmt.Sprintf("g%d %s", g.ID, fn)]++
+				where[g.ID] = fn
 			}
 		}
 		dumps = append(dumps, sb.String())
-		time.Sleep(200 * time.Millisecond)
+		time.Sleep(500 * time.Millisecond)
 	}
+	// A spin: a goroutine started by the library was never seen blocked over the whole
+	// sampling window (5 s) and the stepper made no progress at all meanwhile. A bubble that
+	// is merely slow advances its progress counter.
 	spinning := ""
-	for k, c := range counts {
-		if c == nSamples {
-			spinning = k
+	if ctl.progress.Load() == progress0 {
+		for gid, c := range counts {
+			if c == nSamples {
+				spinning = fmt.Sprintf("goroutine %d (last seen in %s)", gid, where[gid])
+			}
 		}
 	}
 	descr := ""
 	if d := ctl.descr.Load(); d != nil {
 		descr = *d
 	}
-	if spinning != "" && ph != nil && ph.Property != "" {
-		r.Violation(ph.Property, "spin:"+ph.Name, fmt.Sprintf("library goroutine busy in %s in %d/%d stack samples while the harness was in phase %q (no progress for %s real time; a busy loop never lets the fake clock advance)", spinning, nSamples, nSamples, ph.Name, wd),
-			map[string]any{"scenario": descr, "phase": ph.Name, "stacks": dumps[len(dumps)-1]})
-		if ph.Property != r.Prop {
-			r.Inconclusive(fmt.Sprintf("scenario could not complete: library spinning in phase %q (a violation of %s)", ph.Name, ph.Property))
+	prop, name := "", ""
+	if ph != nil {
+		prop, name = ph.Property, ph.Name
+	}
+	if spinning != "" && prop != "" {
+		r.Violation(prop, "spin:"+name, fmt.Sprintf("library %s was busy (never blocked) in %d/%d stack samples over 5s while the harness, in phase %q, saw no progress; the scenario had not finished after %s real time (a busy loop never lets the fake clock advance)", spinning, nSamples, nSamples, name, wd),
+			map[string]any{"scenario": descr, "phase": name, "stacks": dumps[len(dumps)-1]})
+		if prop != r.Prop {
+			r.Inconclusive(fmt.Sprintf("scenario could not complete: library spinning in phase %q (a violation of %s)", name, prop))
 		}
 	} else {
-		name := ""
-		if ph != nil {
-			name = ph.Name
-		}
 		r.Inconclusive(fmt.Sprintf("watchdog: bubble did not finish within %s real time in phase %q and no library goroutine was identified as spinning; scenario: %.300s", wd, name, descr))
 		os.WriteFile(filepath.Join(r.Cfg.VerifDir, "logs", r.Prop+".watchdog.txt"), []byte(dumps[len(dumps)-1]), 0o644)
 	}
